@@ -597,6 +597,8 @@ class Concatenator(Group):  # pylint: disable=too-many-public-methods
                 val = [as_str_if_uuid(uid) for uid in val]
             elif attr == "association":
                 val = val.name.lower().capitalize()
+            elif isinstance(val, np.generic):
+                val = val.item()
 
             target_attributes[key] = val
 
